@@ -20,6 +20,13 @@ func verifLineRange(tag, file string, lo, hi int) hcl.Range {
 	return hcl.Range{Filename: file, Start: hcl.Pos{Line: 1, Column: s + 1, Byte: s}, End: hcl.Pos{Line: 1, Column: e + 1, Byte: e}}
 }
 
+func verifChoiceIf(vary bool, name string, n int, dflt int) int {
+	if vary {
+		return verifChoice(name, n)
+	}
+	return dflt
+}
+
 func verifInside(in, out hcl.Range) bool {
 	return verifAnd(out.Start.Byte <= in.Start.Byte, in.End.Byte <= out.End.Byte)
 }
@@ -70,9 +77,9 @@ func VerifP_C11_Inverse(mode int) {
 		{lang.RootStep{Name: "var"}, lang.AttrStep{Name: "bar"}},
 		{lang.RootStep{Name: "var"}, lang.AttrStep{Name: "foo"}, lang.AttrStep{Name: "other"}},
 		{lang.RootStep{Name: "count"}, lang.AttrStep{Name: "index"}},
-	}[verifChoice("oaddr", 5)]
-	oCons := reference.OriginConstraints{{OfScopeId: []lang.ScopeId{"", "variable"}[verifChoice("oscope", 2)], OfType: []cty.Type{cty.NilType, cty.String, cty.DynamicPseudoType}[verifChoice("otype", 3)]}}
-	if verifChoice("nocons", 2) == 1 {
+	}[verifChoiceIf(mode != 2, "oaddr", 5, 4)]
+	oCons := reference.OriginConstraints{{OfScopeId: []lang.ScopeId{"", "variable"}[verifChoiceIf(mode != 2, "oscope", 2, 0)], OfType: []cty.Type{cty.NilType, cty.String, cty.DynamicPseudoType}[verifChoiceIf(mode != 2, "otype", 3, 1)]}}
+	if verifChoiceIf(mode != 2, "nocons", 2, 0) == 1 {
 		oCons = nil
 	}
 	oRange := verifLineRange("or", "o.tf", 0, 90)
@@ -91,6 +98,11 @@ func VerifP_C11_Inverse(mode int) {
 	}
 	ctx1 := &PathContext{ReferenceTargets: mkTargets("a", file1), ReferenceOrigins: reference.Origins{origin}, Files: map[string]*hcl.File{}}
 	ctx2 := &PathContext{ReferenceTargets: mkTargets("b", "t2.tf"), ReferenceOrigins: reference.Origins{}, Files: map[string]*hcl.File{}}
+	twin := mode == 0 && verifChoice("twin", 2) == 1
+	if twin {
+		// a second path refers to the same declaration of p1 from an identically named file at the same range
+		ctx2.ReferenceOrigins = reference.Origins{reference.PathOrigin{Range: oRange, TargetAddr: oAddr, TargetPath: p1, Constraints: oCons}}
+	}
 	d := NewDecoder(&verifPathReader{paths: map[string]*PathContext{"p1": ctx1, "p2": ctx2}})
 	d.SetContext(NewDecoderContext())
 
@@ -114,13 +126,19 @@ func VerifP_C11_Inverse(mode int) {
 			q.Column = q.Byte + 1
 			verifAssume(verifAnd(t.DefRangePtr.Start.Byte <= q.Byte, q.Byte < t.DefRangePtr.End.Byte))
 			back := d.ReferenceOriginsTargetingPos(t.Path, t.DefRangePtr.Filename, q)
-			ok := false
+			ok, ok2 := false, false
 			for _, o := range back {
 				if o.Path.Path == "p1" && o.Range.Filename == "o.tf" {
 					ok = verifOr(ok, verifAnd(o.Range.Start.Byte == oRange.Start.Byte, o.Range.End.Byte == oRange.End.Byte))
 				}
+				if o.Path.Path == "p2" && o.Range.Filename == "o.tf" {
+					ok2 = verifOr(ok2, verifAnd(o.Range.Start.Byte == oRange.Start.Byte, o.Range.End.Byte == oRange.End.Byte))
+				}
 			}
 			verifAssert(ok, "C11:find-references-at-definition-reports-the-origin")
+			if twin {
+				verifAssert(ok2, "C11:find-references-reports-origins-of-every-path")
+			}
 		}
 	}
 	verifNoWrites("C04:lookup-writes", true)
